@@ -269,6 +269,16 @@ pub fn check(t: &Trace<'_>, out: &mut CaseOut) -> bool {
             Ev::OpRet { op } => {
                 // every PUBLISH consumed during this call that had to be delivered was delivered by it
                 let o = &t.log.ops[*op];
+                // "the transport accepted nothing" is reported although every write the transport
+                // was given a byte for took at least one: the acknowledgements still owed are held
+                // back for no reason the application or the broker gave
+                if !hostile && !broken && acks_judged && !owed.is_empty() && matches!(o.outcome, Outcome::Err(ErrRepr::WriteZero)) {
+                    let cause = w.events[o.ev_call..=o.ev_ret.min(w.events.len() - 1)].iter().any(|e| matches!(e, Ev::Io { kind: crate::world::IoKind::Write, req, ans: crate::world::IoAns::Zero, .. } if *req > 0));
+                    if !cause && o.conn.is_some_and(|c| t.conns.iter().any(|x| x.idx == c && x.stream_ok && x.established)) {
+                        out.violations.push(viol("C04", "C04/ack-held-back-by-a-write-error-nobody-caused", format!("{} returned WriteZero on conn {:?} although no non-empty write was answered with 0 bytes; {} acknowledgement(s) still owed (first: type {} id {})", o.kind, o.conn, owed.len(), owed[0].kind, owed[0].pid)));
+                        broken = true;
+                    }
+                }
                 if !hostile && !broken && matches!(o.outcome, Outcome::Ok(_)) {
                     let pending_here = expect.iter().filter(|(c, i)| w.conns[*c].in_pkts[*i].ev_consumed.is_some_and(|x| x >= o.ev_call && x <= o.ev_ret)).count();
                     if pending_here > 0 {
